@@ -901,6 +901,168 @@ def extract_helpers(sources: Dict[str, str]) -> Dict[str, str]:
     return out
 
 
+def expand_augassign(sources: Dict[str, str]) -> Dict[str, str]:
+    """`x op= e` -> `x = x op e` for plain names and `self.attr` targets (immutable-safe forms only: `+=` on a list
+    extends in place while `x = x + e` rebinds, so +=, |=, &=, -= are only rewritten when the target is a local that
+    was last bound to a number / bool literal or the right-hand side is a number)."""
+    out = {}
+    for p, s in sources.items():
+        tree = ast.parse(s)
+
+        class Tr(ast.NodeTransformer):
+            def visit_AugAssign(self, n):
+                self.generic_visit(n)
+                num = isinstance(n.value, ast.Constant) and isinstance(n.value.value, (int, float)) and not isinstance(n.value.value, bool)
+                if not (isinstance(n.target, ast.Name) and num):
+                    return n
+                load = ast.Name(id=n.target.id, ctx=ast.Load())
+                return ast.copy_location(ast.Assign(targets=[n.target], value=ast.BinOp(left=load, op=n.op, right=n.value)), n)
+        tree = Tr().visit(tree)
+        ast.fix_missing_locations(tree)
+        out[p] = ast.unparse(tree)
+    return out
+
+
+def negated_compares(sources: Dict[str, str]) -> Dict[str, str]:
+    """`a not in b` -> `not a in b`, `a is not b` -> `not a is b`, `a != b` -> `not a == b` (single-operator comparisons)."""
+    out = {}
+    for p, s in sources.items():
+        tree = ast.parse(s)
+        POS = {ast.NotIn: ast.In, ast.IsNot: ast.Is, ast.NotEq: ast.Eq}
+
+        class Tr(ast.NodeTransformer):
+            def visit_Compare(self, n):
+                self.generic_visit(n)
+                if len(n.ops) == 1 and type(n.ops[0]) in POS:
+                    inner = ast.Compare(left=n.left, ops=[POS[type(n.ops[0])]()], comparators=n.comparators)
+                    return ast.copy_location(ast.UnaryOp(op=ast.Not(), operand=inner), n)
+                return n
+        tree = Tr().visit(tree)
+        ast.fix_missing_locations(tree)
+        out[p] = ast.unparse(tree)
+    return out
+
+
+def ifexp_to_statement(sources: Dict[str, str]) -> Dict[str, str]:
+    """`x = a if c else b` -> `if c: x = a` / `else: x = b`; `return a if c else b` -> `if c: return a` / `return b`
+    (inside functions; single plain-name target)."""
+    out = {}
+    for p, s in sources.items():
+        tree = ast.parse(s)
+
+        def conv(body):
+            res = []
+            for st in body:
+                for fld in ("body", "orelse", "finalbody"):
+                    sub = getattr(st, fld, None)
+                    if isinstance(sub, list) and sub and isinstance(sub[0], ast.stmt) and not isinstance(st, ast.ClassDef):
+                        setattr(st, fld, conv(sub))
+                for h in getattr(st, "handlers", []) or []:
+                    h.body = conv(h.body)
+                if isinstance(st, ast.Assign) and len(st.targets) == 1 and isinstance(st.targets[0], ast.Name) and isinstance(st.value, ast.IfExp) \
+                        and not any(isinstance(x, ast.NamedExpr) for x in ast.walk(st.value)):
+                    v = st.value
+                    a = ast.Assign(targets=[ast.Name(id=st.targets[0].id, ctx=ast.Store())], value=v.body)
+                    b = ast.Assign(targets=[ast.Name(id=st.targets[0].id, ctx=ast.Store())], value=v.orelse)
+                    res.append(ast.copy_location(ast.If(test=v.test, body=[ast.copy_location(a, st)], orelse=[ast.copy_location(b, st)]), st))
+                    continue
+                if isinstance(st, ast.Return) and isinstance(st.value, ast.IfExp) and not any(isinstance(x, ast.NamedExpr) for x in ast.walk(st.value)):
+                    v = st.value
+                    res.append(ast.copy_location(ast.If(test=v.test, body=[ast.copy_location(ast.Return(value=v.body), st)], orelse=[]), st))
+                    res.append(ast.copy_location(ast.Return(value=v.orelse), st))
+                    continue
+                res.append(st)
+            return res
+        for fn_ in ast.walk(tree):
+            if isinstance(fn_, (ast.FunctionDef, ast.AsyncFunctionDef)):
+                fn_.body = conv(fn_.body)
+        ast.fix_missing_locations(tree)
+        out[p] = ast.unparse(tree)
+    return out
+
+
+def _is_submodule(module: str, name: str) -> bool:
+    import importlib.util
+    try:
+        return importlib.util.find_spec(f"{module}.{name}") is not None
+    except (ImportError, AttributeError, ValueError):
+        return False
+
+
+def qualified_external_imports(sources: Dict[str, str]) -> Dict[str, str]:
+    """`from fontTools.misc.transform import Transform` ... `Transform(...)`  ->  `import fontTools.misc.transform as _q_transform`
+    ... `_q_transform.Transform(...)` for module-level from-imports of third-party / standard-library modules (names that are
+    re-exported, rebound or used as decorators / base classes / in annotations stay as they are)."""
+    out = {}
+    for p, s in sources.items():
+        tree = ast.parse(s)
+        stores = {n.id for n in ast.walk(tree) if isinstance(n, ast.Name) and isinstance(n.ctx, (ast.Store, ast.Del))}
+        stores |= {a.arg for n in ast.walk(tree) if isinstance(n, (ast.FunctionDef, ast.AsyncFunctionDef, ast.Lambda)) for a in n.args.args + n.args.kwonlyargs + n.args.posonlyargs}
+        keep = set()
+        for n in ast.walk(tree):
+            if isinstance(n, (ast.FunctionDef, ast.AsyncFunctionDef, ast.ClassDef)):
+                for d in n.decorator_list + (n.bases if isinstance(n, ast.ClassDef) else []):
+                    keep |= {x.id for x in ast.walk(d) if isinstance(x, ast.Name)}
+            if isinstance(n, (ast.FunctionDef, ast.AsyncFunctionDef)):
+                for a in n.args.args + n.args.kwonlyargs + n.args.posonlyargs:
+                    if a.annotation is not None:
+                        keep |= {x.id for x in ast.walk(a.annotation) if isinstance(x, ast.Name)}
+                if n.returns is not None:
+                    keep |= {x.id for x in ast.walk(n.returns) if isinstance(x, ast.Name)}
+            if isinstance(n, ast.AnnAssign):
+                keep |= {x.id for x in ast.walk(n.annotation) if isinstance(x, ast.Name)}
+            if isinstance(n, ast.Assign) and any(isinstance(t, ast.Name) and t.id == "__all__" for t in n.targets):
+                keep |= {x.value for x in ast.walk(n.value) if isinstance(x, ast.Constant) and isinstance(x.value, str)}
+        is_pkg_init = p.endswith("__init__.py")
+        mapping = {}
+        new_body = []
+        k = 0
+        for st in tree.body:
+            if isinstance(st, ast.ImportFrom) and st.level == 0 and st.module and not st.module.startswith("ufo2ft") and st.module != "__future__" and not is_pkg_init:
+                rest = []
+                for a in st.names:
+                    local = a.asname or a.name
+                    if a.name == "*" or local in stores or local in keep or _is_submodule(st.module, a.name):
+                        rest.append(a)
+                        continue
+                    k += 1
+                    alias = f"_q{k}_{st.module.split('.')[-1]}"
+                    mapping[local] = (alias, a.name, st.module)
+                if rest:
+                    new_body.append(ast.copy_location(ast.ImportFrom(module=st.module, names=rest, level=0), st))
+                continue
+            new_body.append(st)
+        if not mapping:
+            out[p] = s
+            continue
+        # `from pkg import submodule` cannot be told from `from pkg import name` here: import the parent and read the attribute
+        imports = []
+        seen = {}
+        for local, (alias, name, module) in mapping.items():
+            if module not in seen:
+                seen[module] = alias
+                imports.append(ast.Import(names=[ast.alias(name=module, asname=alias)]))
+            mapping[local] = (seen[module], name, module)
+
+        class Tr(ast.NodeTransformer):
+            def visit_Name(self, n):
+                if isinstance(n.ctx, ast.Load) and n.id in mapping:
+                    alias, name, _ = mapping[n.id]
+                    return ast.copy_location(ast.Attribute(value=ast.Name(id=alias, ctx=ast.Load()), attr=name, ctx=ast.Load()), n)
+                return n
+        # insert after the docstring / __future__ imports
+        idx = 0
+        while idx < len(new_body) and ((isinstance(new_body[idx], ast.Expr) and isinstance(new_body[idx].value, ast.Constant)) or
+                                        (isinstance(new_body[idx], ast.ImportFrom) and new_body[idx].module == "__future__")):
+            idx += 1
+        tree.body = new_body
+        tree = Tr().visit(tree)
+        tree.body[idx:idx] = imports
+        ast.fix_missing_locations(tree)
+        out[p] = ast.unparse(tree)
+    return out
+
+
 def rename_all_locals(sources: Dict[str, str]) -> Dict[str, str]:
     out = {}
     for p, s in sources.items():
@@ -990,6 +1152,14 @@ def _worker(args):
             overlay = hoist_local_imports(sources)
         elif m.old == "<extract-helpers>":
             overlay = extract_helpers(sources)
+        elif m.old == "<ifexp-to-statement>":
+            overlay = ifexp_to_statement(sources)
+        elif m.old == "<qualified-imports>":
+            overlay = qualified_external_imports(sources)
+        elif m.old == "<expand-augassign>":
+            overlay = expand_augassign(sources)
+        elif m.old == "<negated-compares>":
+            overlay = negated_compares(sources)
         elif m.old == "<keywords-at-call-sites>":
             overlay = keywords_at_call_sites(sources)
         elif m.old == "<swap-if-else>":
@@ -1046,6 +1216,10 @@ GENERIC = [
     M("every compound if-test moved into an explaining variable on the line before", "", None, "<explain-if-tests>", "", kind="equiv"),
     M("function-level guards `if c: return` rewritten as `if not c: <rest of the body>`", "", None, "<invert-return-guards>", "", kind="equiv"),
     M("function-level imports moved to the top of the module", "", None, "<hoist-local-imports>", "", kind="equiv"),
+    M("`a not in b` / `a is not b` / `a != b` written as `not a in b` / `not a is b` / `not a == b`", "", None, "<negated-compares>", "", kind="equiv"),
+    M("`n op= <number>` written as `n = n op <number>`", "", None, "<expand-augassign>", "", kind="equiv"),
+    M("conditional expressions assigned / returned rewritten as if / else statements", "", None, "<ifexp-to-statement>", "", kind="equiv"),
+    M("third-party names imported with `from M import N` used module-qualified instead (`import M as m` ... `m.N`)", "", None, "<qualified-imports>", "", kind="equiv"),
     M("extract function: every computed right-hand side / return value moved into a new private module-level helper", "", None, "<extract-helpers>", "", kind="equiv"),
     M("methods of every class in reverse source order", "", None, "<reverse-methods>", "", kind="equiv"),
     M("swap the branches of every plain if/else under the negated test", "", None, "<swap-if-else>", "", kind="equiv"),
